@@ -247,8 +247,10 @@ fn exec_name(raw: &str) -> Outcome {
         }
         Err(e) => {
             o.answer = "err".into();
-            o.bumps.push(format!("name:err:{}", name_err_class(&e.to_string())));
-            o.nontrivial = true;
+            let class = name_err_class(&e.to_string());
+            o.bumps.push(format!("name:err:{class}"));
+            // a bad first character (or nothing at all) is the trivial way to be rejected
+            o.nontrivial = class != "first" && class != "empty";
             if want {
                 o.fails.push(("name_rejected_inside_grammar".into(), format!("rejected {raw:?}: {e}")));
             }
@@ -671,7 +673,7 @@ fn exec_scaffold(idx: usize, raw: &str, pre: &str, fault: &str) -> Outcome {
         o.fails.push(("error_but_project_created".into(), detail()));
     } else if status == "signal" {
         o.fails.push(("killed_by_signal".into(), detail()));
-    } else if class.starts_with("complete") != oracle_name_ok(t) && status != "panic" && fault.is_none() {
+    } else if pre == "none" && fault.is_none() && class.starts_with("complete") != oracle_name_ok(t) {
         o.fails.push(("binary_name_acceptance".into(), detail()));
     }
     let _ = fs::remove_dir_all(&work);
@@ -739,6 +741,7 @@ fn run_cases(rec: &mut Recorder, cases: &[Vec<String>], evaluations: &mut u64) {
         }
     });
     let mut j = 0;
+    let mut sampled: BTreeSet<String> = BTreeSet::new();
     for c in cases {
         rec.case(&c[0]);
         let mut any_nontrivial = false;
@@ -767,8 +770,24 @@ fn run_cases(rec: &mut Recorder, cases: &[Vec<String>], evaluations: &mut u64) {
             }
         }
         let _ = any_nontrivial;
-        if rec.samples.len() < 6 && (c.len() <= 3 || rec.samples.is_empty()) {
-            rec.samples.push(serde_json::json!(c.iter().take(4).cloned().collect::<Vec<_>>()));
+        // samples: a few cases of every kind, written out (long lines cut)
+        let id = c[0].split(' ').nth(1).unwrap_or("");
+        let top = id.split('-').next().unwrap_or("").to_string();
+        let descr = c[0].split(' ').skip(2).collect::<Vec<_>>().join(" ");
+        let (key, cap) = match top.as_str() {
+            "names" => (format!("names:{}", id.chars().filter(|ch| !ch.is_ascii_digit()).collect::<String>()), 4),
+            "scaffold" => (format!("scaffold:{descr}"), 9),
+            other => (other.to_string(), 1),
+        };
+        let n_top = sampled.iter().filter(|k| k.split(':').next() == Some(top.as_str())).count();
+        if n_top < cap && !sampled.contains(&key) {
+            sampled.insert(key);
+            let cut = |l: &String| if l.len() > 240 { format!("{}…", &l[..240]) } else { l.clone() };
+            // the first line plus a few from the middle of the case
+            let mid = if c.len() > 8 { c.len() / 2 } else { 1 };
+            let mut lines = vec![cut(&c[0])];
+            lines.extend(c.iter().skip(mid).take(3).map(cut));
+            rec.samples.push(serde_json::json!(lines));
         }
     }
 }
@@ -931,7 +950,7 @@ fn gen_render_cases(rng: &mut Rng, n: usize, cases: &mut Vec<Vec<String>>) {
         let name = match rng.below(6) {
             0 => "lower".to_string(),
             1 => "name".to_string(),
-            2 => "pub".to_string(),
+            2 => "pubkey".to_string(),
             3 => "name_lowercase".to_string(),
             _ => valid_random_name(rng),
         };
@@ -1059,7 +1078,7 @@ pub fn main() {
         "one evaluation = one op line. name ops: exhaustive over the 12-symbol class alphabet [a z A 0 9 _ - . / space e-acute {] up to the tier's \
          length, keyword/near-keyword/Unicode/whitespace probes, PRNG names; render ops: PRNG templates from placeholder fragments and the real \
          templates; scaffold ops: the real sf binary, every (syscall class, position, errno) fault of the clean-run sequence plus two positions \
-         past the end, pre-existing file/dir/symlink/dangling targets, names through the binary. Non-trivial = a rejected name, an accepted name \
+         past the end, pre-existing file/dir/symlink/dangling targets, names through the binary. Non-trivial = a name rejected for a reason other than its first character / emptiness, an accepted name \
          with a separator/digit/trimmed padding, a render that changed the template, a scaffold whose injected fault fired or that met a \
          pre-existing target or did not end in status ok; distinct by op line text.",
     );
